@@ -17,6 +17,11 @@ import (
 
 var ErrSubscriptionExists = errors.New("subscription ID already exists")
 
+// errConnClosing is returned by subscribe when the connection has decided to
+// close because its last subscription is gone. Nothing is wrong with the
+// upstream, so WSTransport.Subscribe answers it by dialling a fresh connection.
+var errConnClosing = fmt.Errorf("%w: no subscriptions left", common.ErrConnectionClosed)
+
 type wsConnectionOptions struct {
 	logger       abstractlogger.Logger
 	writeTimeout time.Duration
@@ -36,6 +41,11 @@ type wsConnection struct {
 
 	subsMu sync.RWMutex
 	subs   map[string]common.Handler
+	// closing is set under subsMu, in the same critical section that finds subs
+	// empty, once the connection decides to close for lack of subscriptions.
+	// From then on subscribe refuses to register, so the close cannot hit a
+	// subscription that was added in between.
+	closing bool
 
 	closed atomic.Bool
 
@@ -80,6 +90,11 @@ func newWSConnection(conn *websocket.Conn, proto protocol.Protocol, opts wsConne
 // and, if this was the last subscription, triggers the idle-close flow.
 func (c *wsConnection) subscribe(ctx context.Context, id string, req *common.Request, handler common.Handler) (func(), error) {
 	c.subsMu.Lock()
+
+	if c.closing {
+		c.subsMu.Unlock()
+		return nil, errConnClosing
+	}
 
 	if c.closed.Load() {
 		c.subsMu.Unlock()
@@ -130,14 +145,20 @@ func (c *wsConnection) removeSub(id string) {
 	c.subsMu.Lock()
 	delete(c.subs, id)
 	isEmpty := len(c.subs) == 0
+	if isEmpty && c.idleTimeout <= 0 {
+		c.closing = true
+	}
 	c.subsMu.Unlock()
 
 	if isEmpty {
 		if c.idleTimeout > 0 {
 			time.AfterFunc(c.idleTimeout, func() {
-				c.subsMu.RLock()
+				c.subsMu.Lock()
 				stillEmpty := len(c.subs) == 0
-				c.subsMu.RUnlock()
+				if stillEmpty {
+					c.closing = true
+				}
+				c.subsMu.Unlock()
 				if stillEmpty {
 					c.closeConn()
 				}
